@@ -456,12 +456,27 @@ static void run_weighted(void)
         memset(&t2, 0, sizeof t2);
         cmb_timeseries_summarize(&ts, &t2);
         vx_transition();
-        /* durations are differences of sums of the weights: a weight can be lost against a large clock value, skip those */
-        bool exact_durations = ts.ds.count == (uint64_t)n + (n > 0);
-        for (int i = 0; exact_durations && i < n; i++) {
-            exact_durations = ts.wa[i] == w[i];
+        /* durations are differences of sums of the weights: a weight can be lost against a large clock value; those
+         * inputs are skipped (decided by the harness's own arithmetic, not by what the library stored) */
+        bool exact_durations = true;
+        {
+            double tt = 0;
+            for (int i = 0; exact_durations && i < n; i++) {
+                const double t1 = tt + w[i];
+                exact_durations = (t1 - tt) == w[i];
+                tt = t1;
+            }
         }
         if (exact_durations) {
+            for (int i = 0; i < n; i++) {
+                if ((uint64_t)i >= ts.ds.count || ts.ds.xa[i] != x[i] || ts.wa[i] != w[i]) {
+                    FAIL("weighted:timeseries-summary:durations", "sample %d of the finalized time series is (%g for %g), it was "
+                         "recorded as %g and lasted %g", i, (uint64_t)i < ts.ds.count ? ts.ds.xa[i] : NAN,
+                         (uint64_t)i < ts.ds.count ? ts.wa[i] : NAN, x[i], w[i]);
+                    cmb_timeseries_terminate(&ts);
+                    return;
+                }
+            }
             if (cmb_wtdsummary_count(&t2) != cmb_wtdsummary_count(&s)) {
                 FAIL("weighted:timeseries-summary:count", "summary of the time series counts %" PRIu64 " samples, %" PRIu64
                      " have a duration", cmb_wtdsummary_count(&t2), cmb_wtdsummary_count(&s));
@@ -483,6 +498,29 @@ static void run_weighted(void)
                      cmb_wtdsummary_variance(&s));
                 cmb_timeseries_terminate(&ts);
                 return;
+            }
+            /* the series is closed a second time, two time units later (an intermediate report, then the end of the run):
+             * the last value simply lasted that much longer */
+            if (n > 0 && n < MAXN && (t + 2.0) - t == 2.0) {
+                cmb_timeseries_finalize(&ts, t + 2.0);
+                struct cmb_wtdsummary t3, s3;
+                memset(&t3, 0, sizeof t3);
+                cmb_timeseries_summarize(&ts, &t3);
+                double x3[MAXN + 1], w3[MAXN + 1];
+                memcpy(x3, x, (size_t)n * sizeof x3[0]);
+                memcpy(w3, w, (size_t)n * sizeof w3[0]);
+                x3[n] = x[n - 1];
+                w3[n] = 2.0;
+                wsummarise(&s3, x3, w3, n + 1, 1.0);
+                vx_transition();
+                if (memcmp(&t3, &s3, sizeof s3) != 0) {
+                    FAIL("weighted:timeseries-summary:closed-twice", "after a second finalize two time units later the summary "
+                         "has count %" PRIu64 ", mean %.17g; the samples with the last value held two units longer give count %"
+                         PRIu64 ", mean %.17g", cmb_wtdsummary_count(&t3), cmb_wtdsummary_mean(&t3),
+                         cmb_wtdsummary_count(&s3), cmb_wtdsummary_mean(&s3));
+                    cmb_timeseries_terminate(&ts);
+                    return;
+                }
             }
         }
         cmb_timeseries_terminate(&ts);
